@@ -18,11 +18,14 @@ FORMATS = ('csv', 'xls', 'aif')
 
 IN_DOMAIN = {
     'csv': [('plain', 'hello'), ('unicode', 'Üñí-µm'), ('spaced', 'hello world'), ('int', 5), ('zero', 0), ('float', 5.5), ('negfloat', -2.25),
-            ('bool', True), ('boolf', False), ('sci', 1.25e-12), ('big', 1e22), ('dotted', 'v1.2.3'), ('ключ', 'значение')],
+            ('bool', True), ('boolf', False), ('sci', 1.25e-12), ('big', 1e22), ('dotted', 'v1.2.3'), ('ключ', 'значение'),
+            ('posexp', 2.5e+17), ('negposexp', -6.71e+18), ('exp16', 1e16)],
     'aif': [('plain', 'hello'), ('unicode', 'Üñí-µm'), ('spaced', 'hello world'), ('int', 5), ('zero', 0), ('float', 5.5), ('negfloat', -2.25),
-            ('bool', True), ('boolf', False), ('sci', 1.25e-12), ('big', 1e22), ('dotted', 'v1.2.3')],
+            ('bool', True), ('boolf', False), ('sci', 1.25e-12), ('big', 1e22), ('dotted', 'v1.2.3'),
+            ('posexp', 2.5e+17), ('negposexp', -6.71e+18), ('exp16', 1e16)],
     'xls': [('plain', 'hello'), ('unicode', 'Üñí-µm'), ('spaced', 'hello, world; "quoted"'), ('float', 5.5), ('negfloat', -2.25), ('intf', 5.0),
-            ('bool', True), ('boolf', False), ('sci', 1.25e-12), ('text_int', '5'), ('text_true', 'true'), ('key with blank', 'v')],
+            ('bool', True), ('boolf', False), ('sci', 1.25e-12), ('text_int', '5'), ('text_true', 'true'), ('key with blank', 'v'),
+            ('posexp', 2.5e+17), ('negposexp', -6.71e+18)],
 }
 OUT_DOMAIN = {
     'csv': [('sep', 'a,b'), ('newline', 'a\nb'), ('text_int', '5'), ('text_true', 'true'), ('text_none', 'none'), ('empty', ''), ('list', [1, 2]),
@@ -185,6 +188,43 @@ def work(arg):
             if ex.startswith('nan'):
                 sx = {'extras': 'missing-values'}
             res['viol'] += one(iso, fmt, target, 'point', {'units': cfg, 'shape': spec}, sx, list(meta_small))
+        elif kind == 'converted':
+            mk = core.call(g.mk_point_converted, cfg, spec, meta_small, scale)
+            if not mk.ok:
+                raise core.HarnessError(f'cannot build a converted isotherm for {cfg}: {mk.brief()}')
+            res['viol'] += one(mk.value, fmt, target, 'point', {'units': cfg, 'shape': spec, 'reached_by': 'conversion from default units'},
+                               {'reached_by': 'conversion'}, list(meta_small))
+        elif kind == 'custom-keys':
+            import pygaps
+            df = g.point_frame(*spec, scale).rename(columns={'pressure': 'p_abs', 'loading': 'uptake'})
+            iso = pygaps.PointIsotherm(isotherm_data=df, pressure_key='p_abs', loading_key='uptake', material='gen-mat', adsorbate='N2',
+                                       temperature=77.355 if cfg[6] == 'K' else -195.795, **g.units(cfg), **meta_small)
+            res['viol'] += one(iso, fmt, target, 'point', {'units': cfg, 'shape': spec, 'column names': ['p_abs', 'uptake']}, {'keys': 'custom'},
+                               list(meta_small))
+        elif kind == 'outdata':
+            # a text column whose entries spell numbers: the format must carry it unchanged or refuse it
+            iso = g.mk_point(cfg, spec, meta_small, scale)
+            o = core.call(export_import, iso, fmt, target)
+            want = iso.data_raw['label'].tolist()
+            if not o.ok:
+                if core.is_pg(o.kind):
+                    res['refused'] += 1
+                else:
+                    res['viol'].append(core.make_violation(
+                        {'check': 'out-of-domain-data-not-refused-with-pgError', 'format': fmt, 'extras': spec[2], 'kind': o.kind},
+                        f'[{fmt}/{target}] text data column {want} (spelling numbers): {o.brief()} instead of a pyGAPS error',
+                        {'format': fmt, 'shape': spec, 'units': cfg}))
+            else:
+                got = o.value.data_raw['label'].tolist() if 'label' in o.value.data_raw.columns else '<column absent>'
+                same = got == want or (isinstance(got, list) and len(got) == len(want) and all(
+                    (a == b and type(a) is type(b)) or (a is None and (b is None or b != b)) for a, b in zip(want, got)))
+                if same:
+                    res['unchanged'] += 1
+                else:
+                    res['viol'].append(core.make_violation(
+                        {'check': 'out-of-domain-data-silently-changed', 'format': fmt, 'extras': spec[2]},
+                        f'[{fmt}/{target}] text data column {want} (labels spelling numbers) silently came back as {got}',
+                        {'format': fmt, 'shape': spec, 'units': cfg}, want, got))
         elif kind == 'meta':
             cls, (key, val) = spec
             meta = {key: val}
@@ -246,6 +286,15 @@ def run(ctx):
             sh = shapes if (not ctx.quick or ci in (0, 4)) else shapes[ci % 6::6]
             for spec in sh:
                 jobs.append(('point', fmt, cfg, spec, ctx.scale))
+            for spec in g.ZERO_SHAPES:
+                if not ctx.quick or ci in (0, 3, 5) or spec[0] == 4:
+                    jobs.append(('point', fmt, cfg, spec, ctx.scale))
+            jobs.append(('converted', fmt, cfg, (4, 'guessable', 'numeric'), ctx.scale))
+            if fmt in ('csv', 'xls'):
+                jobs.append(('custom-keys', fmt, cfg, (4, 'guessable', 'numeric'), ctx.scale))
+            if ci == 0:
+                for spec in g.TEXTNUM_SHAPES:
+                    jobs.append(('outdata', fmt, cfg, spec, ctx.scale))
             for cls in ('base', 'point', 'model'):
                 al = IN_DOMAIN[fmt]
                 for kv in (al if (not ctx.quick or ci == 0) else al[ci % 4::4]):
